@@ -114,6 +114,19 @@ def eff_deps(T, t):
 
 # ---------------------------------------------------------------------------------------------- one-shot scenario
 
+try:
+    PID_MAX = int(open('/proc/sys/kernel/pid_max').read())
+except Exception:
+    PID_MAX = 32768
+
+
+def spawned_before(p1, p2):
+    """was the process with pid p1 forked before the one with pid p2 (few forks apart; pids wrap at pid_max)"""
+    if p1 is None or p2 is None:
+        return False
+    return 0 < (p2 - p1) % PID_MAX < PID_MAX // 2
+
+
 def oneshot(rng, T, roots, fail=(), gated=True, tag='os', cap=None, hang_s=None, with_inputs=True, second_run=True, pre_args=(), hold_s=0.0):
     """Runs `zinoma <roots>` once. Returns (obs, verdicts): verdicts = {property_id: [text, ...]} for violated properties."""
     d = vf.scratch_dir(tag)
@@ -170,11 +183,28 @@ def oneshot(rng, T, roots, fail=(), gated=True, tag='os', cap=None, hang_s=None,
                     failed.add(t)
         blocked = {t for t in clo if tdeps(T, t) & failed}
         keepalive = any(service_behind(T, r) for r in roots)
-        # C01: every start after the success of each effective dependency (build: end 0; service: its start line)
+        # C01: every start after the success of each effective dependency. A build is ready when its script has written its
+        # `end 0` line (before it exits).  A service is ready when zinoma has spawned it: its shell writes the start line a
+        # little later, so when the two start lines appear in the other order the spawn order decides, read from the pids of
+        # the two shells (allocated sequentially at fork; compared modulo pid_max).
+        pid_first = {}
+        for (k, t, x) in tr:
+            if k == 'start' and t not in pid_first and x.isdigit():
+                pid_first[t] = int(x)
         for t, i in pos_start.items():
             for dd in eff_deps(T, t):
-                j = pos_end_ok.get(dd) if T[dd]['kind'] == 'build' else pos_start.get(dd)
-                if j is None or j > i:
+                if T[dd]['kind'] == 'build':
+                    j = pos_end_ok.get(dd)
+                    early = j is None or j > i
+                else:
+                    j = pos_start.get(dd)
+                    if j is None:
+                        early = True
+                    elif j < i:
+                        early = False
+                    else:
+                        early = not spawned_before(pid_first.get(dd), pid_first.get(t))
+                if early:
                     bad('C01', '%s started before its dependency %s was ready' % (t, dd))
         # C08: nothing twice, nothing outside the closure
         for t, n in starts.items():
